@@ -613,6 +613,27 @@ MUTANTS = [
         (PT_H, "                start.run_body( range_pool.back() );\n                range_pool.pop_back();", "                if (range_pool.size() < 7) start.run_body( range_pool.back() );\n                range_pool.pop_back();")]),
     dict(name='c05-seed3-count-rounded-up-by-adding-step', prop='C05', clause='D6', edits=[(PF_H,
         "        Index end = (last - first - Index(1)) / step + Index(1);", "        Index end = Index((last - first) + (step - Index(1))) / step;")]),
+    dict(name='c01-dispatcher-dtor-destroys-vertices-with-children', prop='C01', clause='D6', edits=[('src/tbb/scheduler_common.h',
+        """            if (node->get_num_child() == 0) {
+                node->~reference_vertex();
+                cache_aligned_deallocate(node);
+            }""",
+        """            node->~reference_vertex();
+            cache_aligned_deallocate(node);""")]),
+    dict(name='c01-vertex-map-cleanup-ignores-children', prop='C01', clause='D6', edits=[('src/tbb/task.cpp',
+        "                if (it->second->get_num_child() == 0) {", "                if (it->second != ref_counter) {")]),
+    dict(name='c01-group-wait-typed-handler-resets-only', prop='C01', clause='D9', edits=[('include/oneapi/tbb/task_group.h',
+        '        bool cancellation_status = false;\n        try_call([&] {\n            d1::wait(m_wait_vertex.get_context(), context());\n        }).on_completion([&] {\n            // TODO: the reset method is not thread-safe. Ensure the correct behavior.\n            cancellation_status = m_context.is_group_execution_cancelled();\n            context().reset();\n        });\n        return cancellation_status ? canceled : complete;',
+        '        try {\n            d1::wait(m_wait_vertex.get_context(), context());\n        } catch (const std::exception&) {\n            context().reset();\n            throw;\n        }\n        bool cancellation_status = m_context.is_group_execution_cancelled();\n        context().reset();\n        return cancellation_status ? canceled : complete;')]),
+    dict(name='c01-group-wait-no-reset-when-the-wait-throws', prop='C01', clause='D9', edits=[('include/oneapi/tbb/task_group.h',
+        '        bool cancellation_status = false;\n        try_call([&] {\n            d1::wait(m_wait_vertex.get_context(), context());\n        }).on_completion([&] {\n            // TODO: the reset method is not thread-safe. Ensure the correct behavior.\n            cancellation_status = m_context.is_group_execution_cancelled();\n            context().reset();\n        });\n        return cancellation_status ? canceled : complete;',
+        '        d1::wait(m_wait_vertex.get_context(), context());\n        bool cancellation_status = m_context.is_group_execution_cancelled();\n        context().reset();\n        return cancellation_status ? canceled : complete;')]),
+    dict(name='c03-group-wait-typed-handler-resets-only', prop='C03', clause='D5', edits=[('include/oneapi/tbb/task_group.h',
+        '        bool cancellation_status = false;\n        try_call([&] {\n            d1::wait(m_wait_vertex.get_context(), context());\n        }).on_completion([&] {\n            // TODO: the reset method is not thread-safe. Ensure the correct behavior.\n            cancellation_status = m_context.is_group_execution_cancelled();\n            context().reset();\n        });\n        return cancellation_status ? canceled : complete;',
+        '        try {\n            d1::wait(m_wait_vertex.get_context(), context());\n        } catch (const std::exception&) {\n            context().reset();\n            throw;\n        }\n        bool cancellation_status = m_context.is_group_execution_cancelled();\n        context().reset();\n        return cancellation_status ? canceled : complete;')]),
+    dict(name='c03-group-wait-no-reset-when-the-wait-throws', prop='C03', clause='D5', edits=[('include/oneapi/tbb/task_group.h',
+        '        bool cancellation_status = false;\n        try_call([&] {\n            d1::wait(m_wait_vertex.get_context(), context());\n        }).on_completion([&] {\n            // TODO: the reset method is not thread-safe. Ensure the correct behavior.\n            cancellation_status = m_context.is_group_execution_cancelled();\n            context().reset();\n        });\n        return cancellation_status ? canceled : complete;',
+        '        d1::wait(m_wait_vertex.get_context(), context());\n        bool cancellation_status = m_context.is_group_execution_cancelled();\n        context().reset();\n        return cancellation_status ? canceled : complete;')]),
     dict(name='c01-seed3-run-and-wait-handle-epilogue-on-exception-only', prop='C01', clause='D9', edits=[('include/oneapi/tbb/task_group.h',
         """            execute_and_wait(*acs::release(h), context(), m_wait_vertex.get_context(), context());
         }).on_completion([&] {""",
@@ -1437,6 +1458,28 @@ BENIGN = [
             my_max_load_factor = other.my_max_load_factor;
             my_segments = other.my_segments;
             internal_copy(other);""")]),
+    dict(name='c01-b-dispatcher-dtor-skips-vertices-with-children', prop='C01', edits=[('src/tbb/scheduler_common.h',
+        """            if (node->get_num_child() == 0) {
+                node->~reference_vertex();
+                cache_aligned_deallocate(node);
+            }""",
+        """            if (node->get_num_child() != 0) {
+                continue;
+            }
+            node->~reference_vertex();
+            cache_aligned_deallocate(node);""")]),
+    dict(name='c01-b-group-wait-epilogue-by-try-catch', prop='C01', edits=[('include/oneapi/tbb/task_group.h',
+        '        bool cancellation_status = false;\n        try_call([&] {\n            d1::wait(m_wait_vertex.get_context(), context());\n        }).on_completion([&] {\n            // TODO: the reset method is not thread-safe. Ensure the correct behavior.\n            cancellation_status = m_context.is_group_execution_cancelled();\n            context().reset();\n        });\n        return cancellation_status ? canceled : complete;',
+        '        try {\n            d1::wait(m_wait_vertex.get_context(), context());\n        } catch (...) {\n            context().reset();\n            throw;\n        }\n        bool cancellation_status = m_context.is_group_execution_cancelled();\n        context().reset();\n        return cancellation_status ? canceled : complete;')]),
+    dict(name='c01-b-group-wait-epilogue-by-raii-guard', prop='C01', edits=[('include/oneapi/tbb/task_group.h',
+        '        bool cancellation_status = false;\n        try_call([&] {\n            d1::wait(m_wait_vertex.get_context(), context());\n        }).on_completion([&] {\n            // TODO: the reset method is not thread-safe. Ensure the correct behavior.\n            cancellation_status = m_context.is_group_execution_cancelled();\n            context().reset();\n        });\n        return cancellation_status ? canceled : complete;',
+        '        bool cancellation_status = false;\n        {\n            auto epilogue = make_raii_guard([&] {\n                cancellation_status = m_context.is_group_execution_cancelled();\n                context().reset();\n            });\n            d1::wait(m_wait_vertex.get_context(), context());\n        }\n        return cancellation_status ? canceled : complete;')]),
+    dict(name='c03-b-group-wait-epilogue-by-try-catch', prop='C03', edits=[('include/oneapi/tbb/task_group.h',
+        '        bool cancellation_status = false;\n        try_call([&] {\n            d1::wait(m_wait_vertex.get_context(), context());\n        }).on_completion([&] {\n            // TODO: the reset method is not thread-safe. Ensure the correct behavior.\n            cancellation_status = m_context.is_group_execution_cancelled();\n            context().reset();\n        });\n        return cancellation_status ? canceled : complete;',
+        '        try {\n            d1::wait(m_wait_vertex.get_context(), context());\n        } catch (...) {\n            context().reset();\n            throw;\n        }\n        bool cancellation_status = m_context.is_group_execution_cancelled();\n        context().reset();\n        return cancellation_status ? canceled : complete;')]),
+    dict(name='c03-b-group-wait-epilogue-by-raii-guard', prop='C03', edits=[('include/oneapi/tbb/task_group.h',
+        '        bool cancellation_status = false;\n        try_call([&] {\n            d1::wait(m_wait_vertex.get_context(), context());\n        }).on_completion([&] {\n            // TODO: the reset method is not thread-safe. Ensure the correct behavior.\n            cancellation_status = m_context.is_group_execution_cancelled();\n            context().reset();\n        });\n        return cancellation_status ? canceled : complete;',
+        '        bool cancellation_status = false;\n        {\n            auto epilogue = make_raii_guard([&] {\n                cancellation_status = m_context.is_group_execution_cancelled();\n                context().reset();\n            });\n            d1::wait(m_wait_vertex.get_context(), context());\n        }\n        return cancellation_status ? canceled : complete;')]),
     dict(name='c01-b-group-wait-epilogue-in-a-named-lambda', prop='C01', edits=[('include/oneapi/tbb/task_group.h',
         """        try_call([&] {
             d1::wait(m_wait_vertex.get_context(), context());
